@@ -1,5 +1,10 @@
-(* Props/C03.v — op, ip, lc, rc, sp, cp, acp match their definitions.  Statements only. *)
-From KV Require Import Model.All Bridge.Codegen.
+(* Props/C03.v — op, ip, lc, rc, sp, cp, acp match their definitions.  Statements only; proofs in
+   Theory/Bits.v (bit tricks), Theory/Product.v, Theory/Ops.v, Theory/SignBits.v, Theory/OpsWF.v.
+   All theorems: every commutative ring of coefficients, every well-formed algebra (any dimension,
+   signature ordering incl. negative and null generators, start index, admissible custom basis), all
+   duplicate-free key tuples in any order. *)
+From Coq Require Import Ring_theory.
+From KV Require Import Model.All Bridge.Codegen Theory.WF Theory.Bits Theory.Sparse Theory.Product Theory.Ops Theory.OpsWF.
 Local Open Scope Z_scope.
 
 (* the seven filters regenerated from today's source are the model's filters (all arguments) *)
@@ -13,3 +18,87 @@ Theorem C03_filters_tie : forall sgn kx ky ko,
   Gen.Codegen.filter_acp sgn kx ky ko = Model.Codegen.filter_acp sgn kx ky ko.
 Proof. intros. repeat split. Qed.
 Print Assumptions C03_filters_tie.
+
+(* the bit tricks, for unbounded non-negative keys: k_out == kx + ky selects exactly the disjoint pairs,
+   i.e. grade(out) = r + s;  k_out == |kx - ky| exactly the nested pairs, i.e. grade |r - s|; etc. *)
+Theorem C03_filter_op_grade : forall kx ky, 0 <= kx -> 0 <= ky ->
+  (filter_op kx ky (Z.lxor kx ky) = true <-> popcount (Z.lxor kx ky) = popcount kx + popcount ky).
+Proof. exact filter_op_grade. Qed.
+Theorem C03_filter_ip_grade : forall kx ky, 0 <= kx -> 0 <= ky ->
+  (filter_ip kx ky (Z.lxor kx ky) = true <-> popcount (Z.lxor kx ky) = Z.abs (popcount kx - popcount ky)).
+Proof. exact filter_ip_grade. Qed.
+Theorem C03_filter_lc_grade : forall kx ky, 0 <= kx -> 0 <= ky ->
+  (filter_lc kx ky (Z.lxor kx ky) = true <-> popcount (Z.lxor kx ky) = popcount ky - popcount kx).
+Proof. exact filter_lc_grade. Qed.
+Theorem C03_filter_rc_grade : forall kx ky, 0 <= kx -> 0 <= ky ->
+  (filter_rc kx ky (Z.lxor kx ky) = true <-> popcount (Z.lxor kx ky) = popcount kx - popcount ky).
+Proof. exact filter_rc_grade. Qed.
+Theorem C03_filter_sp_grade : forall kx ky, 0 <= kx -> 0 <= ky ->
+  (filter_sp kx ky (Z.lxor kx ky) = true <-> popcount (Z.lxor kx ky) = 0).
+Proof. exact filter_sp_grade. Qed.
+Print Assumptions C03_filter_op_grade.
+Print Assumptions C03_filter_ip_grade.
+Print Assumptions C03_filter_lc_grade.
+Print Assumptions C03_filter_rc_grade.
+Print Assumptions C03_filter_sp_grade.
+
+Section Ring.
+  Variable R : Type.
+  Variables (rO rI : R) (radd rmul rsub : R -> R -> R) (ropp : R -> R).
+  Hypothesis Rth : ring_theory rO rI radd rmul rsub ropp (@eq R).
+  Local Notation O := (mkOps R radd rsub rmul ropp rO rI).
+  Local Notation gsum sel A K x y := (rsum rO radd (map (gcontrib rO rmul ropp A sel K) (list_prod x y))).
+
+  (* a ^ b = sum over r, s of the grade r+s part of a_r b_s, coefficient by coefficient; likewise
+     |r-s| (ip), s-r (lc), r-s (rc), 0 (sp): gcontrib sel K is the geometric-product contribution of a
+     pair of stored blades when the grades (r, s, grade of the product blade) satisfy sel, else 0 *)
+  Theorem C03_op : forall A, wf_alg A = true -> forall (x y : mv R) K, wfmv A x -> wfmv A y -> 0 <= K < alg_len A ->
+    coeff O K (op O A x y) = gsum sel_op A K x y.
+  Proof. intros A H. apply (op_graded _ _ _ _ _ _ _ Rth A (sh_keys A (wf_sign_hyps A H))). Qed.
+  Theorem C03_ip : forall A, wf_alg A = true -> forall (x y : mv R) K, wfmv A x -> wfmv A y -> 0 <= K < alg_len A ->
+    coeff O K (ip O A x y) = gsum sel_ip A K x y.
+  Proof. intros A H. apply (ip_graded _ _ _ _ _ _ _ Rth A (sh_keys A (wf_sign_hyps A H))). Qed.
+  Theorem C03_lc : forall A, wf_alg A = true -> forall (x y : mv R) K, wfmv A x -> wfmv A y -> 0 <= K < alg_len A ->
+    coeff O K (lc O A x y) = gsum sel_lc A K x y.
+  Proof. intros A H. apply (lc_graded _ _ _ _ _ _ _ Rth A (sh_keys A (wf_sign_hyps A H))). Qed.
+  Theorem C03_rc : forall A, wf_alg A = true -> forall (x y : mv R) K, wfmv A x -> wfmv A y -> 0 <= K < alg_len A ->
+    coeff O K (rc O A x y) = gsum sel_rc A K x y.
+  Proof. intros A H. apply (rc_graded _ _ _ _ _ _ _ Rth A (sh_keys A (wf_sign_hyps A H))). Qed.
+  Theorem C03_sp : forall A, wf_alg A = true -> forall (x y : mv R) K, wfmv A x -> wfmv A y -> 0 <= K < alg_len A ->
+    coeff O K (sp O A x y) = gsum sel_sp A K x y.
+  Proof. intros A H. apply (sp_graded _ _ _ _ _ _ _ Rth A (sh_keys A (wf_sign_hyps A H))). Qed.
+
+  (* ip + sp = lc + rc *)
+  Theorem C03_ip_sp_lc_rc : forall A, wf_alg A = true -> forall (x y : mv R) K, wfmv A x -> wfmv A y -> 0 <= K < alg_len A ->
+    radd (coeff O K (ip O A x y)) (coeff O K (sp O A x y)) = radd (coeff O K (lc O A x y)) (coeff O K (rc O A x y)).
+  Proof. intros A H. apply (ip_sp_lc_rc _ _ _ _ _ _ _ Rth A (sh_keys A (wf_sign_hyps A H))). Qed.
+
+  (* cp + acp = gp;  2 cp = ab - ba;  2 acp = ab + ba *)
+  Theorem C03_cp_acp_gp : forall A, wf_alg A = true -> forall (x y : mv R) K, wfmv A x -> wfmv A y -> 0 <= K < alg_len A ->
+    radd (coeff O K (cp O A x y)) (coeff O K (acp O A x y)) = coeff O K (gp O A x y).
+  Proof. intros A H. pose proof (wf_sign_hyps A H) as S.
+    apply (cp_acp_gp _ _ _ _ _ _ _ Rth A (sh_keys A S) (sh_val A S) (sh_swap A S)). Qed.
+  Theorem C03_cp : forall A, wf_alg A = true -> forall (x y : mv R) K, wfmv A x -> wfmv A y -> 0 <= K < alg_len A ->
+    radd (coeff O K (cp O A x y)) (coeff O K (cp O A x y)) = rsub (coeff O K (gp O A x y)) (coeff O K (gp O A y x)).
+  Proof. intros A H. pose proof (wf_sign_hyps A H) as S.
+    apply (cp_spec _ _ _ _ _ _ _ Rth A (sh_keys A S) (sh_val A S) (sh_swap A S)). Qed.
+  Theorem C03_acp : forall A, wf_alg A = true -> forall (x y : mv R) K, wfmv A x -> wfmv A y -> 0 <= K < alg_len A ->
+    radd (coeff O K (acp O A x y)) (coeff O K (acp O A x y)) = radd (coeff O K (gp O A x y)) (coeff O K (gp O A y x)).
+  Proof. intros A H. pose proof (wf_sign_hyps A H) as S.
+    apply (acp_spec _ _ _ _ _ _ _ Rth A (sh_keys A S) (sh_val A S) (sh_swap A S)). Qed.
+End Ring.
+Print Assumptions C03_op.
+Print Assumptions C03_ip.
+Print Assumptions C03_lc.
+Print Assumptions C03_rc.
+Print Assumptions C03_sp.
+Print Assumptions C03_ip_sp_lc_rc.
+Print Assumptions C03_cp_acp_gp.
+Print Assumptions C03_cp.
+Print Assumptions C03_acp.
+
+(* non-vacuity: in Cl(2,0), (e1 + 2 e2) ^ (3 e1 + e12) = -6 e12 and the hypotheses are satisfiable *)
+Example C03_example :
+  let A := mk_default [1; 1] 1 false in
+  wf_alg A = true /\ op Zops A [(1, 1); (2, 2)] [(1, 3); (3, 1)] = [(3, -6)].
+Proof. vm_compute. split; reflexivity. Qed.
